@@ -3,7 +3,6 @@ import vf
 from checks import objects_common as oc
 
 LEVEL = "model_checking"
-PROVISIONAL = oc.PROVISIONAL
 
 
 def run(ctx):
@@ -35,6 +34,6 @@ META = dict(
                 "TLC-enumerated histories (thorough: all abstract histories to depth 5, a seeded sample of depth 6, long random ones, directed "
                 "ones; quick: a seeded sample of these) on real objects in poisoned memory and having TLC compare the outputs of every recurrence of an (abstract state, call) pair."),
     level_note=("Trusted: TLC, Json module, FNV digests. The implementation is exercised on the enumerated histories x seeded configurations, "
-                "signals and settings, not on all of them; arch levels are compared with themselves only. Finding F3 (reset with in-band FEC) is "
-                "matched by shape in the trace spec (TolerateF3) and reported as KNOWN-FINDING."),
+                "signals and settings, not on all of them; arch levels are compared with themselves only. Finding F3 (reset with in-band FEC) was found by "
+                "this check and is repaired in /repo (4d916837); nothing is tolerated."),
 )
